@@ -287,10 +287,10 @@ def _ev_filter(cond, sym, c):
 def run(ck, progs):
     describe(ck)
     for cfg, prog in progs.items():
-        r13a(ck, prog)
-        r13b(ck, prog)
+        ck.attempt(r13a, ck, prog)
+        ck.attempt(r13b, ck, prog)
         before = len(ck.instances)
-        c09.r09b(ck, prog)
+        ck.attempt(c09.r09b, ck, prog)
         for i in ck.instances[before:]:
             i["rule"] = "R13c"
         for v in ck.violations:
